@@ -3,6 +3,7 @@ package main
 // Engine value model (DESIGN Appendix A): concrete shape, symbolic scalar leaves.
 
 import (
+	"time"
 	"fmt"
 	"go/types"
 	"strings"
@@ -158,6 +159,7 @@ type RValue struct {
 	t    types.Type // nil => invalid (zero Value)
 	v    Value
 	addr *Ptr // when addressable / settable
+	ro   bool // obtained through an unexported field: Interface() panics
 }
 
 // Native wraps an opaque native Go value (time.Time, *regexp.Regexp, ...).
@@ -268,6 +270,9 @@ func sortOfBasic(k types.BasicKind) Sort {
 func (e *Exec) zero(t types.Type) Value {
 	if e.isReflectValueType(t) {
 		return RValue{}
+	}
+	if n, ok := t.(*types.Named); ok && n == e.w.timeNamed {
+		return &Native{time.Time{}}
 	}
 	switch u := under(t).(type) {
 	case *types.Basic:
